@@ -1,11 +1,12 @@
 (* C05 — wire codec round-trips, is canonical, agrees with a reference codec.
-   This file contains statements only; every proof is `exact <lemma from Proofs/>`. *)
+   Statements only; every proof is `exact <lemma from Proofs/>`. The statements are the Props
+   of Spec/CodecGoals.v, restated here in full so that they cannot drift silently. *)
 Require Import RV.Model.Bytes RV.Gen.Tables RV.Model.Tag RV.Model.Message RV.Spec.RefCodec.
-Require Import RV.Proofs.TagFacts.
+Require Import RV.Spec.CodecGoals RV.Proofs.TagFacts RV.Proofs.CodecDecode RV.Proofs.CodecEncode.
 Local Open Scope N_scope.
 
 (* Rust's derived order on Tag (what add_field / from_bytes compare with) is exactly the numeric
-   order of the little-endian wire words, on today's table *)
+   order of the little-endian wire words, on today's regenerated table *)
 Theorem C05_tag_order : forall a b, tag_lt a b = (tag_num a <? tag_num b).
 Proof. exact tag_lt_numeric. Qed.
 Print Assumptions C05_tag_order.
@@ -21,3 +22,48 @@ Print Assumptions C05_tag_wire_roundtrip.
 Theorem C05_tag_from_wire_reflected : forall t, tag_from_wire_of_wire t = Some t.
 Proof. exact tag_from_wire_reflected. Qed.
 Print Assumptions C05_tag_from_wire_reflected.
+
+(* the decoder accepts a byte string iff the reference decoder does, with identical content,
+   for every input shorter than 2^32 bytes (the range in which `as u32` is the identity) *)
+Theorem C05_decode_agrees :
+  forall bs, lenN bs < two32 -> ok_opt (from_bytes bs) = ref_decode bs.
+Proof. exact decode_agrees. Qed.
+Print Assumptions C05_decode_agrees.
+
+(* API-built messages with 4-byte aligned values encode canonically and decode back *)
+Theorem C05_roundtrip :
+  forall m, Built m -> aligned_values m -> N.of_nat (encoded_size m) < two32 ->
+            encode m = Ok (canon m) /\ from_bytes (canon m) = Ok m.
+Proof. exact (roundtrip_from_agrees decode_agrees). Qed.
+Print Assumptions C05_roundtrip.
+
+(* every accepted non-empty message re-encodes to the identical bytes *)
+Theorem C05_canonical :
+  forall bs m, lenN bs < two32 -> from_bytes bs = Ok m -> m <> [] -> encode m = Ok bs.
+Proof. exact canonical. Qed.
+Print Assumptions C05_canonical.
+
+(* at most one field per known tag: the `2..=1024` arm never decides acceptance *)
+Theorem C05_tagcount :
+  forall bs m, from_bytes bs = Ok m -> (length m <= length all_tags)%nat.
+Proof. exact tagcount. Qed.
+Print Assumptions C05_tagcount.
+
+(* RFC framing adds exactly the 8-byte magic and the little-endian payload length *)
+Theorem C05_framed :
+  forall m e, encode m = Ok e ->
+              encode_framed m = Ok (REQUEST_FRAMING_BYTES ++ u32le (as_u32 (lenN e)) ++ e).
+Proof. exact framed. Qed.
+Print Assumptions C05_framed.
+
+(* non-vacuity: a concrete API-built aligned message meets the hypotheses of C05_roundtrip *)
+Example C05_roundtrip_nonvacuous :
+  exists m, Built m /\ aligned_values m /\ N.of_nat (encoded_size m) < two32 /\ length m = 2%nat.
+Proof.
+  exists [(NONC, [x01; x02; x03; x04]); (PAD, [])].
+  split.
+  { eapply Built_add with (m := [(NONC, [x01; x02; x03; x04])]) (t := PAD) (v := []).
+    - eapply Built_add with (m := []) (t := NONC) (v := [x01; x02; x03; x04]); [constructor|reflexivity].
+    - reflexivity. }
+  split; [repeat constructor|]. split; [vm_compute; reflexivity|reflexivity].
+Qed.
